@@ -189,6 +189,30 @@ func c11Step(target string, g, it int, sh *c11Shared) uint64 {
 		dst2 := image.NewRGBA64(r)
 		s.LineariseImage(dst2, src, par)
 		h = mix(h, hashImage(dst2))
+	case target == "images-rgba64":
+		if it%50 != 0 {
+			return 0
+		}
+		s := libSpaces[(g+it/50)%len(libSpaces)]
+		rows := 4 + (g+it/50)%7
+		r := image.Rect(1, 2, 12, 2+rows)
+		src := image.NewRGBA64(r)
+		for i := 0; i < len(src.Pix); i += 8 { // runs of equal pixels, valid premultiplied
+			v := byte((i/8/3)*29 + g)
+			src.Pix[i], src.Pix[i+2], src.Pix[i+4], src.Pix[i+6] = v/2, v/3, v/4, v
+			src.Pix[i+1], src.Pix[i+3], src.Pix[i+5], src.Pix[i+7] = 0, 0, 0, 0
+		}
+		dst := image.NewRGBA64(r)
+		par := 2 + (g+it/50)%3
+		if it%100 == 0 {
+			s.LineariseImage(dst, src, par)
+		} else {
+			s.EncodeImage(dst, src, par)
+		}
+		h = hashImage(dst)
+		dst8 := image.NewRGBA(r)
+		s.EncodeImage(dst8, src, par)
+		h = mix(h, hashImage(dst8))
 	case target == "hash-transform":
 		if it%50 != 0 {
 			return 0
@@ -257,7 +281,7 @@ func float32bits(f float32) uint32 {
 }
 
 var c11Targets = []string{"srgb.from16", "srgb.to16", "srgb.both", "adobergb.from16", "adobergb.to16", "adobergb.both", "prophotorgb.from16", "prophotorgb.to16", "prophotorgb.both",
-	"displayp3", "colors", "tables8", "images", "images-inplace", "hash-transform", "convert", "adapt", "loaders", "icc", "mixed"}
+	"displayp3", "colors", "tables8", "images", "images-inplace", "images-rgba64", "hash-transform", "convert", "adapt", "loaders", "icc", "mixed"}
 
 func c11Lazy(t string) bool {
 	return strings.Contains(t, ".from16") || strings.Contains(t, ".to16") || strings.Contains(t, ".both") || t == "displayp3" || t == "colors" || t == "mixed"
